@@ -714,6 +714,84 @@ def check_c08_python(tier, seed, paths):
             "coverage": {"python_reuse_comparisons": ctx.evaluations, "counters": ctx.counters, "samples": ctx.samples[:2]}}
 
 
+PY_LEAK_DRIVER = r'''
+import ctypes, gc, json, sys
+sys.path.insert(0, sys.argv[1])
+libc = ctypes.CDLL("libc.so.6")
+class MI(ctypes.Structure):
+    _fields_ = [(n, ctypes.c_size_t) for n in ("arena", "ordblks", "smblks", "hblks", "hblkhd", "usmblks", "fsmblks", "uordblks", "fordblks", "keepcost")]
+libc.mallinfo2.restype = MI
+def used():
+    gc.collect()
+    m = libc.mallinfo2()
+    return m.uordblks + m.hblkhd
+from pickle_fuzzer import Generator
+mode, proto, n = sys.argv[2], int(sys.argv[3]), int(sys.argv[4])
+data = bytes((i * 37 + 11) % 256 for i in range(1500))
+def work(k):
+    if mode == "reuse":
+        g = Generator(protocol=proto, seed=3)
+        for i in range(k):
+            g.generate(); g.generate_from_bytes(data); g.reset(); g.set_opcode_range(10 + i % 50, 80 + i % 200)
+    elif mode == "fresh":
+        for i in range(k):
+            g = Generator(protocol=proto, seed=i)
+            g.generate(); g.generate_from_bytes(data[: i % 1500])
+            del g
+    else:
+        from pickle_fuzzer.fuzzer import PickleMutator
+        m = PickleMutator(protocol=proto)
+        for i in range(k):
+            m.mutate(data[: (i * 7) % 1500], 10 + (i % 3) * 5000)
+work(n // 4)          # warm-up
+a = used(); work(n); b = used(); work(2 * n); c = used()
+json.dump({"after_warmup": a, "after_n": b, "after_3n": c, "n": n}, sys.stdout)
+'''
+
+
+def check_c14_python(tier, seed, paths):
+    """live malloc'd bytes of the Python process (glibc mallinfo2: in-use bytes incl. mmapped blocks)
+    after warm-up, after n and after 3n further calls through the built extension: must not grow
+    linearly. Rust-side allocations of the extension go through malloc, so a native leak shows here."""
+    thorough = tier == "thorough"
+    ctx = Ctx(tier, seed, paths)
+    cov = {"runs": []}
+    try:
+        dp = os.path.join(ctx.tmp, "pyleak.py")
+        with open(dp, "w") as f:
+            f.write(PY_LEAK_DRIVER)
+        n = 60000 if thorough else 12000
+        jobs = [("reuse", p, "python3") for p in ((0, 2, 4, 5) if not thorough else range(6))] + \
+               [("fresh", p, "python3") for p in ((3, 5) if not thorough else range(6))] + \
+               [("mutator", p, "python3-vt") for p in ((4,) if not thorough else (1, 4, 5))]
+
+        def one(job):
+            mode, p, interp = job
+            r = subprocess.run([interp, dp, paths["pypkg"], mode, str(p), str(n)], stdout=subprocess.PIPE, stderr=subprocess.PIPE, text=True)
+            return job, r
+        with ThreadPoolExecutor(8) as ex:
+            results = list(ex.map(one, jobs))
+        for (mode, p, interp), r in results:
+            ctx.evaluations += 1
+            if r.returncode != 0:
+                ctx.inconclusive.append("python leak driver failed (%s P%d): %s" % (mode, p, r.stderr.strip()[-200:]))
+                continue
+            m = json.loads(r.stdout)
+            g1 = m["after_n"] - m["after_warmup"]
+            g2 = m["after_3n"] - m["after_n"]
+            cov["runs"].append({"mode": mode, "protocol": p, "calls": 3 * n, "growth_first_n": g1, "growth_next_2n": g2})
+            per_call = g2 / (2.0 * n)
+            # a leak grows linearly: second window (2n calls) about twice the first, and more than 16 bytes per call
+            if g1 > 16 * n and g2 > 16 * 2 * n and 1.2 < (g2 / max(g1, 1)) < 3.5:
+                ctx.violate("C14", "C14:python:%s" % mode,
+                            "Python front end (%s, protocol %d): malloc'd bytes in use grew by %d over %d calls and by %d over the next %d (%.1f bytes per call, linear)" % (
+                                mode, p, g1, n, g2, 2 * n, per_call),
+                            {"frontend": "python", "mode": mode, "protocol": p, "measurements": m})
+    finally:
+        ctx.cleanup()
+    return {"violations_detail": ctx.viol, "inconclusive": ctx.inconclusive, "evaluations": ctx.evaluations, "coverage": cov}
+
+
 if __name__ == "__main__":
     if len(sys.argv) >= 3 and sys.argv[1] == "--replay":
         w = json.load(open(sys.argv[2]))
